@@ -16,7 +16,7 @@ func init() {
 			"Not decided: byte-for-byte equality with an independent reference encoder for every value (C11/C12 cover the codec tables).",
 		"protobuf runtime trusted", "DESIGN.md §3 R-VDT, R-HEADERHASH, R-PBFIELDS; §4 C14",
 		func(c *Ctx) {
-			c.load("dot/types", "lib/grandpa", "pkg/finality-grandpa", "dot/network/messages", "internal/primitives/consensus/grandpa")
+			c.load("dot/types", "lib/grandpa", "pkg/finality-grandpa", "dot/network/messages", "internal/primitives/consensus/grandpa", "pkg/scale")
 			c.ruleVDT("R-VDT", true, "dot/types", "lib/grandpa", "pkg/finality-grandpa")
 			c.min("R-VDT", 8)
 			c.min("R-VDT/spec", 25)
@@ -24,6 +24,7 @@ func init() {
 			c.rulePBFields()
 			c.ruleLastWrite()
 			c.ruleFromBlockClamp()
+			c.ruleFreshStruct()
 			c.ruleNoHandRolled("R-NOHANDROLLED", "dot/types", "dot/network/messages", "lib/grandpa", "internal/primitives/consensus/grandpa")
 		})
 }
